@@ -102,8 +102,20 @@ func (s *Server) Port() string {
 }
 
 func (s *Server) listenAndServe(addr string, handler http.Handler, context hap.Context) error {
-	server := http.Server{Addr: addr, Handler: handler}
+	server := http.Server{Addr: addr, Handler: handler, ConnState: connState}
 	return server.Serve(s)
+}
+
+// connState tells a connection when a request is served; events are not written meanwhile.
+func connState(conn net.Conn, state http.ConnState) {
+	if c, ok := conn.(*hap.Connection); ok == true {
+		switch state {
+		case http.StateActive:
+			c.SetServing(true)
+		case http.StateIdle:
+			c.SetServing(false)
+		}
+	}
 }
 
 func (s *Server) addrString() string {
